@@ -9,6 +9,7 @@ mod ops_amount;
 mod ops_basic;
 mod ops_codec;
 mod ops_curve;
+mod ops_extra;
 mod ops_hash;
 
 pub fn unhex(s: &str) -> Option<Vec<u8>> {
@@ -43,6 +44,9 @@ fn run_line(line: &str) -> String {
         return r;
     }
     if let Some(r) = ops_curve::run(op, &args) {
+        return r;
+    }
+    if let Some(r) = ops_extra::run(op, &args) {
         return r;
     }
     if let Some(r) = ops_hash::run(op, &args) {
